@@ -17,9 +17,10 @@ for f in K:
                re.sub(r"^fixed: property=\S+ \S+ ", "", f["what"]).replace("|", "\\|")))
 out.append("")
 out.append("Candidates from section 7 that did **not** become findings: F5b is F21 (fixed); F12 (`2,1p` accepted as an empty range) was judged "
-           "not to contradict any listed property; F6 (truncated UTF-8 lead byte at the end of a pattern makes `ratom_read` stride past the terminator), "
-           "F8 (`\\<` does not see the left neighbour on rescans), F11 (`ftruncate` result ignored) and F14 (8-fold nested global) have no unit that decides them "
-           "in this round - they are *not* listed as known findings (nothing reports them) and the clauses they would violate are named as not decided in the level notes.\n")
+           "not to contradict any listed property; F8 (`\\<` does not see the left neighbour on rescans), F11 (`ftruncate` result ignored) and F14 "
+           "(8-fold nested global) have no unit that decides them in this round - they are *not* listed as known findings (nothing reports them) and the "
+           "clauses they would violate are named as not decided in the level notes. Found during the build round and not in section 7: F20, F21, F22 "
+           "(`:s` without an argument read past the command line - an everyday command), F23 (`:make` with a long expanded target overran a stack buffer), F9 confirmed natively.\n")
 out.append("### 11.6 Proof units (generated from units.json and the last evidence run)\n")
 ev = {}
 for fn in sorted(os.listdir(os.path.join(V, "evidence"))):
